@@ -46,3 +46,6 @@ if glob.glob(os.path.join(V, 'seeded', 'r3-C*')):
 if glob.glob(os.path.join(V, 'seeded', 'r4-C*')):
     table('r4-C*', hist.get('round4_first_run_missed', {}), set(hist.get('round4_first_run_detected_without_input', [])),
           'Round 4 (20 properties whose tie rests most on hand models and search; fourth-choice code sites)')
+if glob.glob(os.path.join(V, 'seeded', 'r5-C*')):
+    table('r5-C*', hist.get('round5_first_run_missed', {}), set(hist.get('round5_first_run_detected_without_input', [])),
+          'Round 5 (six properties, fresh seeders in a later session; no follow-up time, so "now" = first run)')
